@@ -366,7 +366,7 @@ Lemma Inv_cand_set g a tr t h kin :
   Inv g a tr ->
   views a t = mkTV (@Pending Fifo Deq) None None (Some h) kin None false ->
   tail g = h ->
-  Inv g (auxset a (done a) (rest a) t (mkTV (@Pending Fifo Deq) None None (Some h) [] None true)) tr.
+  Inv g (auxset a (done a) (rest a) t (mkTV (@Pending Fifo Deq) None None (Some h) [h] None true)) tr.
 Proof.
   intros HI Hv Ht. pose proof HI as [H1 H2 H3 H4 H5 H6 H7 H8].
   destruct (H6 t) as (_ & P2 & _). rewrite Hv in P2. cbn in P2.
@@ -375,7 +375,7 @@ Proof.
   constructor; auto; cbn [auxset views done rest].
   - intros x. others x t Hne; [|apply H6]. repeat split; cbn; try (intros; discriminate).
     + intros m E. injection E as <-. exact Hin.
-    + intros m [].
+    + intros m [<-|[]]. apply in_done_LL. exact Hin.
   - apply privs_upd; [exact H7|]. cbn. discriminate.
   - rewrite Er in *. cbn [map] in *.
     eapply spec_ext_r; [eapply spec_set_cand with (t := t); [exact H8|]| |].
